@@ -193,6 +193,12 @@ def facet_space(tier):
         add(R(B(base), ("enumeration", "a"), ("minLength", "1")), sw)
         add(R(B(base), ("pattern", "a.*"), ("maxLength", "2")), sw)
         add(R(R(B(base), ("minLength", "1")), ("maxLength", "2")), sw)
+        # a length fixed in an earlier step stays in force when a later step adds minLength / maxLength (allowed by E2-35)
+        add(R(R(B(base), ("length", "2")), ("maxLength", "3")), sw)
+        add(R(R(B(base), ("length", "2")), ("minLength", "1")), sw)
+        add(R(R(B(base), ("length", "1")), ("minLength", "0"), ("maxLength", "3")), sw)
+        add(R(R(R(B(base), ("length", "2")), ("maxLength", "3")), ("pattern", "[ab ]*")), sw)
+        add(R(R(R(B(base), ("minLength", "1")), ("length", "2")), ("maxLength", "2")), sw)
     add(R(B("string"), ("whiteSpace", "replace")), sw)
     add(R(B("string"), ("whiteSpace", "collapse")), sw)
     add(R(B("string"), ("whiteSpace", "collapse"), ("length", "1")), sw)
@@ -225,6 +231,9 @@ def facet_space(tier):
         add(R(B("hexBinary"), ("minLength", str(n))), hw)
         add(R(B("hexBinary"), ("maxLength", str(n))), hw)
     add(R(B("hexBinary"), ("minLength", "1"), ("maxLength", "2")), hw)
+    add(R(R(B("hexBinary"), ("length", "1")), ("maxLength", "2")), hw)
+    add(R(R(B("hexBinary"), ("length", "2")), ("minLength", "1")), hw)
+    add(R(R(B("hexBinary"), ("length", "1")), ("minLength", "0"), ("maxLength", "3")), hw)
     add(R(B("hexBinary"), ("enumeration", "0a"), ("enumeration", "FF00")), hw)
     add(R(B("hexBinary"), ("pattern", "[0-9A-F]*")), hw)
     b64w = Words(["AA==", "AAA=", "AAAA", "A A A A", "QQ==", " ", "="], 3)
@@ -233,6 +242,8 @@ def facet_space(tier):
         add(R(B("base64Binary"), ("minLength", str(n))), b64w)
         add(R(B("base64Binary"), ("maxLength", str(n))), b64w)
     add(R(B("base64Binary"), ("minLength", "2"), ("maxLength", "3")), b64w)
+    add(R(R(B("base64Binary"), ("length", "2")), ("maxLength", "3")), b64w)
+    add(R(R(B("base64Binary"), ("length", "3")), ("minLength", "1")), b64w)
     add(R(B("base64Binary"), ("enumeration", "AA=="), ("enumeration", "AAAAQQ==")), b64w)
     # ---- decimal / integer
     dextra = Listed(["1.50", "0.50", "-0.5", "-1.5", "10.0", "15.0", "9.99", "0.05", "-5.0", "100", "-10", "1.55", "99.9", "0.10", "-0.0", "+1.5", "+10", "01.5", "1.500", "-19", "19.0",
@@ -334,6 +345,9 @@ def facet_space(tier):
             add(R(base, ("minLength", str(n))), lw)
             add(R(base, ("maxLength", str(n))), lw)
         add(R(base, ("minLength", "1"), ("maxLength", "2")), lw)
+        add(R(R(base, ("length", "2")), ("maxLength", "3")), lw)
+        add(R(R(base, ("length", "1")), ("minLength", "0")), lw)
+        add(R(R(base, ("length", "2")), ("minLength", "1"), ("maxLength", "3")), lw)
         add(R(base, ("enumeration", "1 1"), ("enumeration", "-1")), lw)
         add(R(base, ("pattern", "[0-9 ]*")), lw)
     add(R(U_ib, ("enumeration", "1"), ("enumeration", "true")), lw)
@@ -1817,7 +1831,7 @@ SPEC = dict(
          "(L = 3..5 quick, 4..7 thorough) plus field-wise products (sign x leading zeros x 24 boundary magnitudes x fraction suffix for the 13 integer types; "
          "year x month x day x hour x minute x second x zone for the date/time types; mantissa x exponent for float/double; component products for duration). "
          "facets: ~600 derived types (every single facet and pairs of facets at boundary values on string-like, decimal/integer, float/double, date/time, binary, "
-         "QName/anyURI/boolean bases; 2- and 3-step restriction chains; lists, unions, lists of unions, unions of lists) x all value words <= 3 (quick) / 4-5 (thorough) over the base's "
+         "QName/anyURI/boolean bases; 2- and 3-step restriction chains (incl. `length` fixed in an earlier step and minLength/maxLength added in a later one, erratum E2-35); lists, unions, lists of unions, unions of lists) x all value words <= 3 (quick) / 4-5 (thorough) over the base's "
          "alphabet. order: for each of 13 ordered types a fixed value set (12-60 literals with lexically different equal values and the specification's indeterminate pairs): "
          "DatatypeValidator::compare on all ordered pairs, all triples of the observed relation for the axioms, and the order as validation sees it through four bounding-facet "
          "types per value. Every case: whitespace processing, DatatypeValidator::validate/getCanonicalRepresentation (canonical literal fed back: valid, same value, idempotent), "
